@@ -44,6 +44,23 @@ theorem print_shortest (s : Int) (h : -maxDimen ≤ s ∧ s ≤ maxDimen) (q : P
     ∃ p, printScaled s = some p ∧ p.frac.length ≤ max 1 q.frac.length :=
   print_shortest_core s h q hq hs
 
+/-- `Scaled::parse_from_string` (with fixes/C06-h.patch) reads `Display`'s output (`…pt`) back
+as the identical value too. -/
+theorem parse_from_string_roundtrip (s : Int) (h : -maxDimen ≤ s ∧ s ≤ maxDimen) :
+    parseFromString (Spec.printScaled s) .pt = .ok s := by
+  obtain ⟨p, _, h2, _, h4, _, h6⟩ := print_scan_core s h
+  subst h2
+  unfold scanNoUnits at h6
+  unfold parseFromString
+  by_cases c1 : ((Spec.printScaled s).ip : Int) > 2147483647
+  · rw [if_pos c1] at h6; simp at h6
+  · rw [if_neg c1] at h6 ⊢
+    rw [if_neg (by omega), fromDecimalDigits_pad17] at h6
+    exact h6
+
+/-- C06-h at its witness: before the fix `-0.5pt` was read as `+0.5pt`. -/
+example : parseFromString { neg := true, ip := 0, frac := [5] } .pt = .ok (-32768) := by decide
+
 example : printScaled 6554 = some { neg := false, ip := 0, frac := [1] } := by decide
 example : scanNoUnits { neg := false, ip := 0, frac := [1] } = .ok 6554 := by decide
 example : scanNoUnits { neg := true, ip := 16383, frac := [9, 9, 9, 9, 8] } = .ok (-maxDimen) := by decide
@@ -232,59 +249,47 @@ theorem divide_glue_eq (a : Glue) (n : Int)
 
 example : divideGlue ⟨-7, 7, 1, -2147483648, 0⟩ 2 = .set ⟨-3, 3, 1, -1073741824, 0⟩ := by decide
 
-/-- Full statement of the glue round trip: `\the\skip` followed by scanning gives the glue back
-(zero stretch/shrink having order normal). -/
-def glue_print_scan_roundtrip_full_statement : Prop :=
-  ∀ (g : Glue), (-maxDimen ≤ g.width ∧ g.width ≤ maxDimen) → (-maxDimen ≤ g.stretch ∧ g.stretch ≤ maxDimen) →
-    (-maxDimen ≤ g.shrink ∧ g.shrink ≤ maxDimen) → g.stretchOrder ≤ 3 → g.shrinkOrder ≤ 3 →
-    (g.stretch = 0 → g.stretchOrder = 0) → (g.shrink = 0 → g.shrinkOrder = 0) →
-    ∀ (dec : Nat → List Nat), (∀ n, dec n = (Nat.toDigits 10 n).map (fun c => c.toNat - 48)) →
+/-- The glue round trip: what `\\the\\skip` prints — width `…pt`, then ` plus …` and ` minus …`
+only if non-zero, each with `pt`, `fil`, `fill` or `filll` — is scanned by `Glue::parse_impl` back
+to the identical glue, with no error. For every glue whose components are legal dimensions and
+whose zero stretch/shrink has order normal (what scanning can produce). The integer parts are
+rendered by their decimal digits (`dec5`, = `toString`, see `printed_integer_part_digits`). -/
+theorem glue_print_scan_roundtrip (g : Glue)
+    (hw : -maxDimen ≤ g.width ∧ g.width ≤ maxDimen) (hst : -maxDimen ≤ g.stretch ∧ g.stretch ≤ maxDimen)
+    (hsh : -maxDimen ≤ g.shrink ∧ g.shrink ≤ maxDimen) (ho1 : g.stretchOrder ≤ 3) (ho2 : g.shrinkOrder ≤ 3)
+    (hn1 : g.stretch = 0 → g.stretchOrder = 0) (hn2 : g.shrink = 0 → g.shrinkOrder = 0) :
     scanGlue
-      (scanGlueWidth false (.const 10 (dec (Spec.printScaled g.width).ip) (some (Spec.printScaled g.width).frac))
-        (.phys .pt) |> fun r => mulSign r (if (Spec.printScaled g.width).neg then -1 else 1))
+      (scanGlueWidth (Spec.printScaled g.width).neg
+        (.const 10 (dec5 (Spec.printScaled g.width).ip) (some (Spec.printScaled g.width).frac)) (.phys .pt))
       (if g.stretch = 0 then none else some (scanDimen (Spec.printScaled g.stretch).neg
-        (.const 10 (dec (Spec.printScaled g.stretch).ip) (some (Spec.printScaled g.stretch).frac))
+        (.const 10 (dec5 (Spec.printScaled g.stretch).ip) (some (Spec.printScaled g.stretch).frac))
         (unitOfOrder g.stretchOrder)))
       (if g.shrink = 0 then none else some (scanDimen (Spec.printScaled g.shrink).neg
-        (.const 10 (dec (Spec.printScaled g.shrink).ip) (some (Spec.printScaled g.shrink).frac))
+        (.const 10 (dec5 (Spec.printScaled g.shrink).ip) (some (Spec.printScaled g.shrink).frac))
         (unitOfOrder g.shrinkOrder)))
-      = some (g, 0)
+      = some (g, 0) := by
+  rw [width_roundtrip g.width hw]
+  obtain ⟨w, st, so, sh, sho⟩ := g
+  simp only [] at *
+  by_cases h1 : st = 0
+  · by_cases h2 : sh = 0
+    · simp [scanGlue, h1, h2, hn1 h1, hn2 h2]
+    · rw [if_pos h1, if_neg h2, component_roundtrip sh hsh sho ho2]
+      simp [scanGlue, h1, hn1 h1]
+  · by_cases h2 : sh = 0
+    · rw [if_neg h1, if_pos h2, component_roundtrip st hst so ho1]
+      simp [scanGlue, h2, hn2 h2]
+    · rw [if_neg h1, if_neg h2, component_roundtrip st hst so ho1, component_roundtrip sh hsh sho ho2]
+      simp [scanGlue]
 
-/-- What is proved of it: each printed component — width, stretch, shrink, with unit `pt`,
-`fil`, `fill` or `filll` — is read back by `scan_dimen` as the identical value with no error and
-the same order, *given* a digit string `ds` that `parse_constant` reads as the printed integer
-part. Missing for the full statement: that the decimal digits of `n ≤ 16383` are such a string
-(`scan_int (print_int n) = n`; checked by the correspondence stream `gp`, and in the examples),
-and the assembly of the three components by `scanGlue` (definitional). -/
-theorem glue_print_scan_roundtrip_partial (s : Int) (h : -maxDimen ≤ s ∧ s ≤ maxDimen) (ds : List Nat)
-    (hds : scanConst 10 ds = (((Spec.printScaled s).ip : Int), 0)) (k : Nat) (hk : k ≤ 3) :
-    printScaled s = some (Spec.printScaled s) ∧
-    scanDimen (Spec.printScaled s).neg (.const 10 ds (some (Spec.printScaled s).frac)) (unitOfOrder k)
-      = .ok { val := s, nerr := 0, order := k } := by
-  have hM : maxDimen = 1073741823 := rfl
-  have hp := (print_eq_knuth s h).1
-  refine ⟨hp, ?_⟩
-  by_cases hs : 0 ≤ s
-  · have hip : (((Spec.printScaled s).ip : Nat) : Int) = s / 65536 := by
-      simp only [Spec.printScaled]; omega
-    rw [hip] at hds
-    obtain ⟨frac, h1, h2⟩ := scanDimen_printed s hs h.2 false ds hds k hk
-    have hfr := printScaled_frac s _ hp
-    have e : ((s.natAbs % 65536 : Nat) : Int) = (((s % 65536).natAbs : Nat) : Int) := by omega
-    rw [e, h1] at hfr
-    have hneg : (Spec.printScaled s).neg = false := by simp [Spec.printScaled]; omega
-    rw [hneg, ← Option.some.inj hfr]
-    simpa using h2
-  · have hip : (((Spec.printScaled s).ip : Nat) : Int) = -s / 65536 := by
-      simp only [Spec.printScaled]; omega
-    rw [hip] at hds
-    obtain ⟨frac, h1, h2⟩ := scanDimen_printed (-s) (by omega) (by omega) true ds hds k hk
-    have hfr := printScaled_frac s _ hp
-    have e : ((s.natAbs % 65536 : Nat) : Int) = (((-s % 65536).natAbs : Nat) : Int) := by omega
-    rw [e, h1] at hfr
-    have hneg : (Spec.printScaled s).neg = true := by simp [Spec.printScaled]; omega
-    rw [hneg, ← Option.some.inj hfr]
-    simpa using h2
+/-- The integer part of a printed legal dimension (`< 16384`) is rendered by `toString`; its
+digits are `dec5` (kernel-evaluated for all 16 384 values), which `parse_constant` reads back
+as the same number without error. -/
+theorem printed_integer_part_digits (n : Nat) (h : n < 16384) :
+    (Nat.toDigits 10 n).map Char.toNat = (dec5 n).map (48 + ·) ∧ scanConst 10 (dec5 n) = ((n : Int), 0) := by
+  have := decOK_all n h
+  simp only [decOK, beq_iff_eq] at this
+  exact ⟨this, scanConst_dec5 n (by omega)⟩
 
 example : scanGlue (scanGlueWidth false (.const 10 [1] (some [0])) (.phys .pt))
     (some (scanDimen true (.const 10 [1, 6, 3, 8, 3] (some [9, 9, 9, 9, 8])) (.fil 2))) none
